@@ -114,6 +114,12 @@ impl EstablishProof {
         let close_state_blinding_factor =
             CloseStateBlindingFactor(close_state_proof_builder.message_blinding_factor());
 
+        // Retrieve commitment scalars from the close state proof for public values:
+        // the channel id, the close tag, and the balances.
+        // (Recall: the commitment scalars for the channel id and balances will match the
+        // state proof by construction)
+        let commitment_scalars = *close_state_proof_builder.conjunction_commitment_scalars();
+
         // Form a challenge.
         let challenge = ChallengeBuilder::new()
             // Incorporate public values.
@@ -125,15 +131,15 @@ impl EstablishProof {
             // Incorporate commitments and commitment scalars from proofs.
             .with(&state_proof_builder)
             .with(&close_state_proof_builder)
+            // Incorporate the revealed commitment scalars for the public values.
+            .with(&commitment_scalars[0])
+            .with(&commitment_scalars[1])
+            .with(&commitment_scalars[3])
+            .with(&commitment_scalars[4])
             // Incorporate transcript context.
             .with_bytes(&context.as_bytes())
             .finish();
 
-        // Retrieve commitment scalars from the close state proof for public values:
-        // the channel id, the close tag, and the balances.
-        // (Recall: the commitment scalars for the channel id and balances will match the
-        // state proof by construction)
-        let commitment_scalars = close_state_proof_builder.conjunction_commitment_scalars();
         (
             Self {
                 channel_id_commitment_scalar: commitment_scalars[0],
@@ -173,6 +179,11 @@ impl EstablishProof {
             // Incorporate commitment and commitment scalars from proofs.
             .with(&self.state_proof)
             .with(&self.close_state_proof)
+            // Incorporate the revealed commitment scalars for the public values.
+            .with(&self.channel_id_commitment_scalar)
+            .with(&self.close_tag_commitment_scalar)
+            .with(&self.customer_balance_commitment_scalar)
+            .with(&self.merchant_balance_commitment_scalar)
             // Incorporate transcript context.
             .with_bytes(context.as_bytes())
             .finish();
